@@ -2,6 +2,7 @@ package checks
 
 import (
 	"fmt"
+	metav1 "k8s.io/apimachinery/pkg/apis/meta/v1"
 	"strings"
 	"time"
 
@@ -26,13 +27,16 @@ type lcScenario struct {
 	pool    int // index into poolCfgs
 	catalog string
 	shape   string
+	// foreign: an unrelated, Ready Node WITHOUT a provider id exists in the cluster (a node some other system registered)
+	foreign bool
 }
 
 var lcScenarios = []lcScenario{
-	{"plain", 0, "K1", "small"},
-	{"startup-taint", 6, "K1", "small"},
-	{"extended-resource", 0, "K4", "gpu"},
-	{"template-taint+zone", 4, "K2", "tolerates-dedicated"},
+	{"plain", 0, "K1", "small", false},
+	{"startup-taint", 6, "K1", "small", false},
+	{"extended-resource", 0, "K4", "gpu", false},
+	{"template-taint+zone", 4, "K2", "tolerates-dedicated", false},
+	{"plain+foreign-node-without-provider-id", 0, "K1", "small", true},
 }
 
 type lcObserver struct {
@@ -197,7 +201,7 @@ func containsStr(s []string, v string) bool {
 }
 
 // c14Run executes one lifecycle history chosen by the run and returns the observer.
-func c14Run(sc lcScenario, run *explore.Run, rounds int) (*lcObserver, []string, string) {
+func c14Run(sc lcScenario, run *explore.Run, rounds int, interleave bool) (*lcObserver, []string, string) {
 	c := SchedCase{Catalog: sc.catalog, Pool: sc.pool, Nodes: 0, DS: 0, Pref: options.PreferencePolicyRespect, MinV: options.MinValuesPolicyStrict, Batch: []int{shapeIdx(sc.shape)}, Workers: 1}
 	env := buildSched(c)
 	out := env.runPass(explore.Replay(nil), 1)
@@ -206,9 +210,15 @@ func c14Run(sc lcScenario, run *explore.Run, rounds int) (*lcObserver, []string,
 	}
 	w := env.W
 	name := out.Created[0].Name
+	if sc.foreign {
+		w.Add(&corev1.Node{ObjectMeta: metav1.ObjectMeta{Name: "foreign", UID: "nodeuid-foreign", Labels: map[string]string{corev1.LabelHostname: "foreign"}},
+			Status: corev1.NodeStatus{Conditions: []corev1.NodeCondition{{Type: corev1.NodeReady, Status: corev1.ConditionTrue}},
+				Capacity: world.RL(4000, 8192), Allocatable: world.RL(3900, 8000)}})
+	}
 	w.Client.Log = nil
 	obs := &lcObserver{w: w, creates: map[string]int{}, prev: map[string]bool{}}
 	taken := w.AttachFaults(run, world.WritesAndProvider)
+	var history []string
 	w.Client.After = obs.after
 	// the provider hook also reports through the client log; observe provider creates there
 	inner := w.CP.Hook
@@ -222,22 +232,18 @@ func c14Run(sc lcScenario, run *explore.Run, rounds int) (*lcObserver, []string,
 	ctrl := lifecycle.NewController(w.Clock, w.Client, w.CP, w.Rec, nodepoolhealth.NewState(), nil)
 	versions := []*v1.NodeClaim{w.GetNodeClaim(name)}
 	lastGiven := 0
-	var history []string
 	nodeName := "node-" + name
-	for round := 0; round < rounds; round++ {
+	type evt struct {
+		name string
+		do   func()
+	}
+	// buildMenu computes the environment events that are possible NOW (also used in the middle of a reconcile)
+	buildMenu := func() (menu []evt, def *evt) {
 		cur := w.GetNodeClaim(name)
 		if cur == nil {
-			break
+			return nil, nil
 		}
 		node := w.GetNode(nodeName)
-		// ---- environment event
-		type evt struct {
-			name string
-			do   func()
-		}
-		var menu []evt
-		none := evt{"none", func() {}}
-		var def *evt
 		launched := cur.Status.ProviderID != "" && w.CP.Instance(cur.Status.ProviderID) != nil
 		if launched && node == nil {
 			e := evt{"node-appears", func() { w.KubeletRegister(cur, world.RegisterOpts{NotReadyTaint: true, ZeroExt: true}) }}
@@ -301,6 +307,33 @@ func c14Run(sc lcScenario, run *explore.Run, rounds int) (*lcObserver, []string,
 				ctrl = lifecycle.NewController(w.Clock, w.Client, w.CP, w.Rec, nodepoolhealth.NewState(), nil)
 				obs.restarted = true
 			}})
+		return menu, def
+	}
+	// the kubelet may act in the MIDDLE of a reconcile too (before any of its calls). Only events that make preconditions
+	// MORE true: a Node deleted between the controller's read and its write is an unavoidable time-of-check race, and the
+	// oracle — which looks at the instant of the write — would demand more than the statement says.
+	var inames []string
+	if interleave {
+		inames = []string{"node-appears", "node-appears-without-unregistered-taint", "node-ready", "startup-taints-removed", "extended-resource-reported"}
+	}
+	w.AttachInterleave(run, inames, func(ev, before string) bool {
+		m, _ := buildMenu()
+		for _, e := range m {
+			if e.name == ev {
+				e.do()
+				history = append(history, "{"+ev+" during the reconcile, before "+before+"}")
+				return true
+			}
+		}
+		return false
+	})
+	for round := 0; round < rounds; round++ {
+		cur := w.GetNodeClaim(name)
+		if cur == nil {
+			break
+		}
+		menu, def := buildMenu()
+		none := evt{"none", func() {}}
 		ordered := []evt{none}
 		if def != nil && round > 0 {
 			ordered = []evt{*def, none}
@@ -374,40 +407,50 @@ var _ = client.ObjectKey{}
 func init() {
 	register("C14", "fault_enumeration", func(r *ev.Rec) {
 		bound, rounds := 2, 7
+		type passT struct {
+			bound      int
+			interleave bool
+		}
+		// second pass: kubelet events may also happen in the middle of a reconcile (one deviation, nothing else)
+		passes := []passT{{2, false}, {1, true}}
 		if r.Tier == "thorough" {
 			bound, rounds = 3, 7
+			passes = []passT{{3, false}, {1, true}}
 		}
-		r.Rule = fmt.Sprintf("NodeClaims created by the real provisioner in %d scenarios (plain, startup taint, requested extended resource, template taint) are driven through the real lifecycle controller for %d rounds; "+
+		r.Rule = fmt.Sprintf("NodeClaims created by the real provisioner in %d scenarios (plain, startup taint, requested extended resource, template taint, plain next to an unrelated Node that has no provider id) are driven through the real lifecycle controller for %d rounds; "+
 			"each round = one environment event (node appears with/without the unregistered taint, Ready, startup taints removed, extended resource reported, node deleted, the NodeClaim object removed from the API while the controller still holds a cached copy, clock +5m/+15m, controller restart, none) then one Reconcile handed any NodeClaim version not older than the last one given (stale read); "+
-			"every API WRITE and provider call (reads never fail, as the property quantifies) may fail (500 / 409 on optimistic lock / provider error / InsufficientCapacity / NodeClassNotReady). All histories with <=%d deviations from the happy path (non-default event, stale version, fault) are explored. "+
+			"every API WRITE and provider call (reads never fail, as the property quantifies) may fail (500 / 409 on optimistic lock / provider error / InsufficientCapacity / NodeClassNotReady). All histories with <=%d deviations from the happy path (non-default event, stale version, fault) are explored; a second pass explores every history with ONE kubelet event (node appears / Ready / taints removed / resource reported) happening in the MIDDLE of a reconcile, before any one of its calls. "+
 			"Oracle at the instant of each provider Create and each NodeClaim write. non-trivial = distinct (scenario, history)", len(lcScenarios), rounds, bound)
 		r.Assumptions = []string{"at-most-once Create is only required while the controller keeps running (runs with a restart skip that clause)", "the launch cache's one-hour real-time TTL is never reached"}
 		enum.RunEveryShard(r, int64(len(lcScenarios)), func(i int64, l *ev.Local) {
 			sc := lcScenarios[i]
-			ex := &explore.Explorer{Bound: bound, MaxExecs: 200000, Stop: r.Expired, Shard: r.Shard, NShards: r.Shards}
-			ex.Exec = func(run *explore.Run) {
-				l.Mute = run.Replica
-				obs, history, final := c14Run(sc, run, rounds)
-				l.Eval()
-				l.Trace()
-				l.Nontrivial(sc.name + "/" + strings.Join(history, ","))
-				l.Outcome(final + " transitions=" + strings.Join(obs.transitions, ">"))
-				if len(obs.regressed) > 0 {
-					l.Outcome("condition regressed under a stale read: " + strings.Join(obs.regressed, ","))
+			for _, pass := range passes {
+				bound, interleave := pass.bound, pass.interleave
+				ex := &explore.Explorer{Bound: bound, MaxExecs: 200000, Stop: r.Expired, Shard: r.Shard, NShards: r.Shards}
+				ex.Exec = func(run *explore.Run) {
+					l.Mute = run.Replica
+					obs, history, final := c14Run(sc, run, rounds, interleave)
+					l.Eval()
+					l.Trace()
+					l.Nontrivial(sc.name + "/" + strings.Join(history, ","))
+					l.Outcome(final + " transitions=" + strings.Join(obs.transitions, ">"))
+					if len(obs.regressed) > 0 {
+						l.Outcome("condition regressed under a stale read: " + strings.Join(obs.regressed, ","))
+					}
+					for _, v := range obs.viol {
+						l.Violation(v.Sig, fmt.Sprintf("%s  [scenario=%s history=%v]", v.Msg, sc.name, history), map[string]any{"scenario": sc.name, "choices": run.Choices(), "faults": run.Plan(), "rounds": rounds, "interleave": interleave, "history": history, "calls": callStrings(obs.w)})
+					}
+					if len(run.Choices()) > 0 && run.Used == bound && len(history)%5 == 0 {
+						l.Sample(map[string]any{"scenario": sc.name, "history": history, "final": final})
+					}
 				}
-				for _, v := range obs.viol {
-					l.Violation(v.Sig, fmt.Sprintf("%s  [scenario=%s history=%v]", v.Msg, sc.name, history), map[string]any{"scenario": sc.name, "choices": run.Choices(), "faults": run.Plan(), "rounds": rounds, "history": history, "calls": callStrings(obs.w)})
+				ex.Explore()
+				noteDiverged(l, ex, "prefix")
+				l.Transitions += int64(ex.Points)
+				if ex.Capped {
+					l.Outcome("exploration-capped")
+					r.Exhaustive = false
 				}
-				if len(run.Choices()) > 0 && run.Used == bound && len(history)%5 == 0 {
-					l.Sample(map[string]any{"scenario": sc.name, "history": history, "final": final})
-				}
-			}
-			ex.Explore()
-			noteDiverged(l, ex, "prefix")
-			l.Transitions += int64(ex.Points)
-			if ex.Capped {
-				l.Outcome("exploration-capped")
-				r.Exhaustive = false
 			}
 		})
 	})
@@ -424,7 +467,8 @@ func init() {
 			if sc.name != name {
 				continue
 			}
-			obs, history, final := c14Run(sc, explore.ReplayPlan(intList(d["choices"]), intMap(d["faults"])), rounds)
+			il, _ := d["interleave"].(bool)
+			obs, history, final := c14Run(sc, explore.ReplayPlan(intList(d["choices"]), intMap(d["faults"])), rounds, il)
 			fmt.Printf("scenario %s\nhistory %v\nfinal %s\n", sc.name, history, final)
 			for _, c := range callStrings(obs.w) {
 				fmt.Println("  call:", c)
